@@ -10,6 +10,12 @@ CHECKS = {
  "C01": dict(level="model_checking", design="5/C01, appendix A.1",
    technique="per-path symbolic execution of the real parser/receiver/channel/task code (z3, bit-vector cells) vs an RFC 9112 reference on the same symbolic stream",
    text="Every byte value of a w-byte symbolic window at every position of 27 request skeletons, all byte strings up to a bound in each chunked-decoder phase / header block / request line, and numeric fields of <=3-4 symbolic bytes are run through the real HTTPChannel.received -> HTTPRequestParser -> receivers -> task pipeline; for every path z3 decides whether application calls / error responses / close decision can differ from the strict RFC 9112 reading of the same symbolic bytes. Bounded (window width, lengths, corpus), exhaustive within the bound."),
+ "C02": dict(level="model_checking", design="5/C02",
+   technique="per-path symbolic execution of the real channel/parser/receiver code with the read segmentation (cut positions) and the bytes as symbolic variables; z3 decides equality of wire, application calls, close decision and pending-parser state between segmentations",
+   text="Self-composition: the same symbolic stream is delivered once whole and once cut at a symbolic position (also two symbolic cuts and byte-at-a-time for the concrete skeletons); z3 decides for every path whether the bytes sent, the application calls, the close decision or the live state of the half-parsed request can differ. Equality of the live state is the inductive step that extends one cut to any segmentation of the streams in the family."),
+ "C10": dict(level="model_checking", design="5/C10",
+   technique="z3 regex-theory language inclusion (unbounded length) between the compiled patterns' translated parse trees and the ABNF, plus bounded symbolic execution of the real call sites",
+   text="LANG: for each of the five gates the compiled pattern object waitress uses is translated from its sre parse tree (python semantics of ^ $ \\Z, method read from the call site AST) and z3 decides both inclusions against the independently written ABNF under the stated call-site precondition language - all lengths. SITE: all byte strings up to 4 (quick) / 6 (thorough) bytes at each gate go through the real parser/receiver and are compared with the RFC reference, which checks the precondition languages, the SP/HTAB-only stripping and the numeric conversion."),
 }
 NA = {}
 checks = []
